@@ -79,6 +79,32 @@ def check(ctx):
         some = Agg(r"(std|core)::option::Option", "Some", transitive=False)
         ctx.order(fid, take, some, fn + "/some-only-after-take", "Some(v) carries the value moved out by Option::take (a copy is never handed out)")
         ctx.order(fid, Write(N + ".prev", where=lambda g, pt, n: n["s"] == "="), Write(L + "::Queue.tail"), fn + "/mark-new-end-then-advance", "the new end node's prev is cleared before it becomes the tail (remove() on it must do nothing)")
+    # "nothing to consume" is reported only when the list is empty, i.e. head == tail: a producer that has swapped head but not yet linked
+    # its node makes `tail.next` null although entries (its own and those pushed behind it) are in the list - the consumer waits for
+    # the link instead of reporting None (seed C19-5: a `None` from peek while is_empty() is false loses the wake-up of schedule_timer)
+    for fn in ("pop", "pop_if", "peek"):
+        fid = L + "::Queue::" + fn
+        f = ctx.fn("R-EXIT", fid, fn + "/none-only-if-head-is-tail")
+        if f is None: continue
+        touch = ctx.an.sites(f, Call(r"(std|core)::option::Option::(take|as_ref)", on=N + ".value", transitive=False), "must")
+        def head_is_tail(a, f=f):
+            if not (a.kind == "call" and a.truth is True and re.fullmatch(r"(std|core)::ptr::(eq|const_ptr::eq|mut_ptr::eq)", a.name or "")): return False
+            t = f.term(a.site)
+            ops = [simplify(trace_operand(f, x)) for x in t["args"][:2]]
+            def is_head(o):
+                while o[0] == "cast": o = simplify(o[1])
+                return is_call_result(A("load"), L + "::Queue.head", f)(o)
+            def is_tail(o): return (L + "::Queue.tail") in all_fields(o)
+            return (is_head(ops[0]) and is_tail(ops[1])) or (is_head(ops[1]) and is_tail(ops[0]))
+        blk, good = ctx.edge_blocker(f, head_is_tail)
+        if not touch or not good:
+            ctx.missing("R-EXIT", fid, fn + "/none-only-if-head-is-tail", "value access sites=%d, `ptr::eq(head.load(), tail)` true edges=%d" % (len(touch), len(good))); continue
+        r = ctx.an.reach(f, [Point(0, 0)], blocked=touch, blocked_edges=blk)
+        bad = [x for x in f.ret_points() if x in r]
+        ctx.ob("R-EXIT", fid, fn + "/none-only-if-head-is-tail", not bad, "%s returns without having looked at the first entry only on the `head == tail` edge (an unlinked first node is waited for)" % fn if not bad else
+               "%s can report `nothing there` on a path that is not the `head.load() == tail` edge: with a producer between its head swap and its link store the list is not empty "
+               "(is_empty() is false, later entries are complete) but the consumer sees None - the timer list's scheduler then skips / unwraps a missing head" % fn,
+               f.where(bad[0]) if bad else f.where(), detail=ctx.an.fmt_path(f, ctx.an.path(f, [Point(0, 0)], bad, blocked=touch, blocked_edges=blk)) if bad else None)
     ctx.guarded(L + "::Queue::pop_if", Write(L + "::Queue.tail"), lambda a: a.kind == "truth" and a.truth is True and a.origin[0] == "call" and "call" in (a.origin[2] or "").lower() or
                 (a.kind == "call" and a.truth is True and ("Fn" in (a.name or ""))), "pop_if/only-if-predicate", "pop_if consumes only when the predicate holds", pred_label="edge `f(v)` is true")
     D = "<may_queue::mpsc_list_v1::Queue as std::ops::Drop>::drop"
@@ -119,3 +145,5 @@ def check(ctx):
                 "list0/deref-next-non-null", "mpsc_list pop dereferences `next` only after a non-null load", pred_label="edge `next.is_null()` is false")
     ctx.guarded("<may_queue::mpsc_list::Queue as std::ops::Drop>::drop", Call(r"(std|alloc)::boxed::Box::from_raw", transitive=False), call_false(r"(std|core)::option::Option::is_some"),
                 "list0/drop-drains", "mpsc_list Drop frees the stub only after pop() returned None", pred_label="edge `pop().is_some()` is false")
+    # dependency: the users of the list keep its head report meaningful (rule owned by C08)
+    ctx.import_rules("C08", r"^list/")
